@@ -119,3 +119,27 @@ func (s *Sim) ByzElectionVote(i int, view VR, proposer int, hq *lib.QuorumCertif
 	n.Sent = nil
 	return s.enqueue(i, to, sm)
 }
+
+// ByzResign clones message m, lets `edit` change it, signs it with replica i's key and queues it for every replica in `to`.
+func (s *Sim) ByzResign(i int, m *bft.Message, edit func(m *bft.Message), to []int) []*Envelope {
+	n := s.Nodes[i]
+	c := proto.Clone(m).(*bft.Message)
+	if edit != nil {
+		edit(c)
+	}
+	n.voteJust, n.curBranch = nil, ""
+	sm := n.sign(c)
+	n.Sent = nil
+	var out []*Envelope
+	for _, t := range to {
+		out = append(out, s.enqueue(i, t, sm))
+	}
+	return out
+}
+
+// ByzPacemaker signs a pacemaker (ROUND_INTERRUPT) message claiming `round` and queues it for every replica in `to`.
+func (s *Sim) ByzPacemaker(i int, root, round uint64, to []int) []*Envelope {
+	n := s.Nodes[i]
+	m := &bft.Message{Qc: &lib.QuorumCertificate{Header: &lib.View{NetworkId: n.B.NetworkId, ChainId: n.B.ChainId, Height: Height, RootHeight: root, Round: round, Phase: lib.Phase_ROUND_INTERRUPT}}}
+	return s.ByzResign(i, m, nil, to)
+}
